@@ -375,7 +375,8 @@ def record_into(directory, cfg, tier):
     plan = plan_for(cfg, U)
     K('rec').execute(plan)
     FALLBACK_PHASE[0] = 'replay'
-    rid = [f for f in os.listdir(directory)][0].split('.')[0]
+    files = [f for f in os.listdir(directory)]
+    rid = files[0].split('.')[0] if files else None   # (None: the recorder did not keep the run - a key could not be built)
     return rid, K.results, plan
 
 
@@ -433,6 +434,9 @@ def run_case(case):
     d = tempfile.mkdtemp(prefix='mc_c06_')
     try:
         rid, recorded, plan_rec = record_into(d, cfg, tier)
+        if rid is None:
+            return dict(viol=[viol('not-recorded:%s' % cfg, 'a run whose arguments are all inside the domain was not kept by the recorder (configuration %s): a key could not be built' % cfg,
+                                   'one saved recording', 'nothing saved')], obs=repr((cfg, 'not recorded')), nontrivial=True)
         viols = []
         nbad = 0
         cross = 0
